@@ -78,4 +78,26 @@ def WFf (o : Opts) : Tys → Vals → Prop
   | _, _ => True
 end
 
+theorem or40 (b : UInt8) : (b ||| 0x40) ||| 0x40 = b ||| 0x40 := by
+  rw [UInt8.or_assoc]; rfl
+
+theorem quiet32_shape (a b c d : UInt8) :
+    quiet32 [a, b, c, d] = [a, b, c, d] ∨ quiet32 [a, b, c, d] = [a, b ||| 0x40, c, d] := by
+  simp only [quiet32]; split <;> simp
+
+/-- quieting is idempotent -/
+theorem quiet32_idem (a b c d : UInt8) : quiet32 (quiet32 [a, b, c, d]) = quiet32 [a, b, c, d] := by
+  by_cases h : ((a &&& 0x7f == 0x7f) && (b &&& 0x80 == 0x80) && !((b &&& 0x7f == 0) && c == 0 && d == 0)) = true
+  · have h1 : quiet32 [a, b, c, d] = [a, b ||| 0x40, c, d] := by simp only [quiet32, h, ↓reduceIte]
+    rw [h1]
+    rcases quiet32_shape a (b ||| 0x40) c d with h2 | h2
+    · exact h2
+    · rw [h2, or40]
+  · have h1 : quiet32 [a, b, c, d] = [a, b, c, d] := by simp only [quiet32, h]; simp
+    rw [h1, h1]
+
+theorem topNorm_cases (t0 : Ty) (v0 : Val) (t : Ty) (v : Val) (h : topNorm t0 v0 = some (t, v)) :
+    (t0 = .any ∧ v0 = .any t v) ∨ (t0 ≠ .any ∧ ¬ (t0 = .error ∧ v0 = .nil) ∧ t = t0 ∧ v = v0) := by
+  cases t0 <;> cases v0 <;> simp [topNorm] at h <;> (obtain ⟨rfl, rfl⟩ := h) <;> simp
+
 end ErgoVerif.Edf
